@@ -177,6 +177,12 @@ def _fix_atomic_specifiers_once(
         # its location when we replace the wrapper Typename.
         new_type.coord = parent.coord
     cast(Any, grandparent).type = new_type
+    # Qualifiers written next to the specifier (const _Atomic(int) x) were
+    # attached to the TypeDecl being removed; they qualify the same type.
+    new_type.quals[:0] = [q for q in parent.quals if q not in new_type.quals]
+    if not isinstance(new_type, c_ast.TypeDecl):
+        # They qualify a pointer, not the base type that decl.quals mirrors.
+        decl.quals = [q for q in decl.quals if q not in parent.quals]
     if "_Atomic" not in new_type.quals:
         new_type.quals.append("_Atomic")
     return decl, True
